@@ -610,7 +610,13 @@ func CosimWorker(pm *Params) (*Stats, []*Failure) {
 			continue
 		}
 		cfg := gen.DrawConfig(gr, gen.Profile(prop), pm.Thorough)
-		f := gen.File(gr, cfg)
+		var f *model.File
+		if i%64 == 17 {
+			// stress shapes (thresholds random growth rarely reaches)
+			f = gen.StressFile(gr, cfg)
+		} else {
+			f = gen.File(gr, cfg)
+		}
 		or := rng.New(rng.Sub(runSeed, "options"))
 		style := 0
 		if or.P(0.5) {
@@ -620,6 +626,12 @@ func CosimWorker(pm *Params) (*Stats, []*Failure) {
 		layoutSeed := rng.Sub(runSeed, "layout")
 		p := buildProgram(f, style, layoutSeed, lm)
 		plan := planEnvs(prop, f, runSeed, cfg.Dom, cfg.Vals, pm.Thorough)
+		if cfg.DriveDeep {
+			// game states that walk down a deep nest: most flags set, switched vars mostly 1
+			for k := 0; k < 8; k++ {
+				plan.envs = append(plan.envs, env.Env{Seed: rng.H(runSeed, 0xdee9, uint64(k)), Bias: []float64{0.85, 0.93, 0.97}[k%3], Dom: 2, Vals: [][]int{{1}, {1, 1, 1, 2}, {1, 1, 0}}[k%3]})
+			}
+		}
 		cc.rejected = ""
 		cc.digest = &Digest{}
 		before := cc.evals
@@ -821,7 +833,12 @@ func DebugGen(prop string, seed, run uint64) string {
 	runSeed := rng.RunSeed(seed, prop, run)
 	gr := rng.New(rng.Sub(runSeed, "gen"))
 	cfg := gen.DrawConfig(gr, gen.Profile(prop), false)
-	f := gen.File(gr, cfg)
+	var f *model.File
+	if run%64 == 17 {
+		f = gen.StressFile(gr, cfg)
+	} else {
+		f = gen.File(gr, cfg)
+	}
 	return model.Layout(f.Tokens(), 0, nil)
 }
 
